@@ -454,7 +454,7 @@ func ValidUTF8(p []byte) bool {
 		if ru >= '\u007f' && ru <= '\u009f' {
 			return false
 		}
-		if ru == utf8.RuneError {
+		if ru == utf8.RuneError && size <= 1 {
 			return false
 		}
 		if !utf8.ValidRune(ru) {
@@ -471,7 +471,7 @@ func ValidUTF8(p []byte) bool {
 func ValidTopicName(mustUTF8 bool, p []byte) bool {
 	for len(p) > 0 {
 		ru, size := utf8.DecodeRune(p)
-		if mustUTF8 && ru == utf8.RuneError {
+		if mustUTF8 && ru == utf8.RuneError && size <= 1 {
 			return false
 		}
 		if size == 1 {
@@ -498,7 +498,7 @@ func ValidV5Topic(p []byte) bool {
 			subp := p[7:]
 			for len(subp) > 0 {
 				ru, size := utf8.DecodeRune(subp)
-				if ru == utf8.RuneError {
+				if ru == utf8.RuneError && size <= 1 {
 					return false
 				}
 				if size == 1 {
@@ -533,7 +533,7 @@ func ValidTopicFilter(mustUTF8 bool, p []byte) bool {
 
 	for len(p) > 0 {
 		ru, size := utf8.DecodeRune(p)
-		if mustUTF8 && ru == utf8.RuneError {
+		if mustUTF8 && ru == utf8.RuneError && size <= 1 {
 			return false
 		}
 		plen := len(p)
